@@ -102,7 +102,8 @@ fn emit<T>(it: Result<impl ExactSizeIterator<Item = Result<T, ExternalChunkError
 /// drained afterwards. `sort(&self)` lends the sorter, so every call must meet the property on its own.
 /// 3: one sort, and the sorter is dropped BEFORE the first item of the result is read (the returned iterator does
 /// not borrow the sorter, so this order is legal: `let it = builder.build()?.sort(xs)?;`).
-fn reuse_mode(c: &C) -> u64 { (c.border / 24) % 4 }
+fn reuse_mode(c: &C) -> u64 { CONCURRENT.with(|f| f.set((c.border / 288) % 2 == 1)); (c.border / 24) % 4 }
+thread_local! { static CONCURRENT: std::cell::Cell<bool> = std::cell::Cell::new(false); }
 
 fn sort_reusing<T, F>(sorter: bed_utils::extsort::ExternalSorter, xs: Vec<T>, cmp: F, mode: u64, key: impl Fn(&T) -> Vec<u64>, dig: impl Fn(&T) -> Vec<u8>) -> String
 where T: Serialize + DeserializeOwned + Send + Clone, F: Fn(&T, &T) -> std::cmp::Ordering + Sync + Send + Copy {
@@ -111,6 +112,17 @@ where T: Serialize + DeserializeOwned + Send + Clone, F: Fn(&T, &T) -> std::cmp:
     let mut other: Vec<T> = xs.iter().step_by(2).cloned().collect();
     other.reverse();
     match mode {
+        1 if CONCURRENT.with(|c| c.get()) => {
+            // the two sorts run at the same time on one sorter (`sort_by` takes `&self` and the sorter is `Sync`)
+            let sref = &sorter;
+            let first = std::thread::scope(|sc| {
+                let h = sc.spawn(move || { if let Ok(second) = sref.sort_by(other, cmp) { for _ in second {} } });
+                let first = sref.sort_by(xs, cmp);
+                let _ = h.join();
+                first
+            });
+            emit(first, key, dig)
+        }
         1 => {
             let first = sorter.sort_by(xs, cmp);
             if let Ok(second) = sorter.sort_by(other, cmp) { for _ in second {} }
@@ -217,6 +229,31 @@ fn real_items(rng: &mut Rng, ty: &str, n: usize) -> Vec<SItem> {
     }).collect()
 }
 
+/// Sorts through the REAL chunk files (create, dump, reopen, read back: `ExternalChunk::new`, which the fault-injecting
+/// seams of C09 bypass) of records that compress extremely well or not at all, with every compression setting: C01 cases,
+/// also run and judged (as C01 cases) under C09 — "chunks survive" includes the healthy path through real files.
+pub fn real_file_cases(rng: &mut Rng, tier: Tier) -> Vec<Vec<String>> {
+    let mut out = vec![];
+    let reps = match tier { Tier::Quick => 1, Tier::Thorough => 4 };
+    for _ in 0..reps {
+        for comp in [None, Some(0u32), Some(1), Some(4), Some(9), Some(16)] {
+            for shape in 0..4u64 {
+                let n = rng.range(2, 9) as usize;
+                let xs: Vec<SItem> = (0..n).map(|i| {
+                    let len = match shape { 0 => 4096, 1 => if i == 0 { 200_000 } else { 30 }, 2 => 70_000, _ => rng.range(1, 600) as usize };
+                    let payload: Vec<u8> = match shape { 3 => (0..len).map(|_| rng.below(256) as u8).collect(), 0 => (0..len).map(|j| if j % 2 == 0 { b'A' } else { b'C' }).collect(), _ => vec![b'N'; len] };
+                    (vec![rng.below(5)], payload)
+                }).collect();
+                let chunk = match rng.below(3) { 0 => 1, 1 => n, _ => rng.range(1, n as u64) as usize };
+                let c = C { rev: false, chunk, threads: 1 + rng.below(3) as usize, comp, tmp: rng.chance(1, 2), ty: "kv".into(), border: rng.below(24), xs };
+                if valid(&c) { out.push(enc(&c)); }
+            }
+        }
+    }
+    out
+}
+pub fn exec_tokens(t: &[String]) -> Option<String> { exec(t) }
+
 fn gen(rng: &mut Rng, tier: Tier) -> Vec<Case> {
     let mut out = vec![];
     let mut push = |stream: &str, c: C| { if valid(&c) { out.push(Case::new(stream, enc(&c))); } };
@@ -253,6 +290,13 @@ fn gen(rng: &mut Rng, tier: Tier) -> Vec<Case> {
         let shape = rng.below(5);
         push("environment", C { rev: false, chunk: rng.range(1, 9) as usize, threads: *rng.pick(&threads), comp: *rng.pick(&comps), tmp: i % 4 != 3, ty: "kv".into(), border: rng.below(96) + 96 * (1 + (i % 2)), xs: kv(rng, n, shape) });
     }
+    // two sorts at the same time on one sorter
+    for _ in 0..(match tier { Tier::Quick => 6, Tier::Thorough => 60 }) {
+        let n = rng.range(3, 200) as usize;
+        let shape = rng.below(6);
+        push("concurrent", C { rev: rng.chance(1, 4), chunk: rng.range(1, 40) as usize, threads: *rng.pick(&threads), comp: *rng.pick(&comps), tmp: rng.chance(1, 2), ty: "kv".into(), border: rng.below(24) + 24 + 288, xs: kv(rng, n, shape) });
+    }
+    for t in real_file_cases(rng, tier) { if let Some(c) = dec(&t) { push("real-files", c); } }
     let nr = match tier { Tier::Quick => 120, Tier::Thorough => 1500 };
     for _ in 0..nr {
         let ty = *rng.pick(&["kv", "gr", "bed6", "np", "bg"]);
@@ -287,7 +331,7 @@ fn gen(rng: &mut Rng, tier: Tier) -> Vec<Case> {
 pub fn prop() -> PropDef {
     PropDef {
         id: "C01",
-        rule: "corpus, then (a) lengths k*c-1, k*c, k*c+1 for chunk sizes c in {0,1,2,3,7,64} and k <= 4, and chunk sizes n, n+1, 1e6, 2^33, 2^40, usize::MAX/16, usize::MAX for n in {0,1,2,5,50} (chunk sizes from 2^28 run in a child process); (b) random inputs of 0-400 records with chunk sizes n/3, n, 1000, 2..60; inputs sorted / reversed / constant key / 3 keys (many ties) / random / with a 9 KiB and a 70 KiB record; record types (key,payload) compared by key only or reversed, GenomicRange (sort with its Ord, and sort_by), BED<6> with optional fields, NarrowPeak with float fields, BedGraph<f64>; threads in {1,2,3,8,16}, compression in {none,0,1,4,9,16}, explicit or default tmp dir; in a third of the cases the sorter is used for two sorts and the observed one is the first (second sort run and drained while the first result is unread) or the second (first result drained afterwards), or the sorter is dropped before the first item of its result is read; a few sorts in a child process whose environment changes between build() and the sort (tmp dir given as a relative path and the working directory changed; TMPDIR pointing to a missing directory); thorough adds inputs of 9e3 to 3e4 records in chunks of 3e3 to 1.2e4 (above rayon's sequential cut-off of 2000). three sorts of 300-700 records in runs of 1-2 records (more than 2^8 runs); the number of runs is kept <= 700 (every run is an open file). Non-trivial: >= 2 records and (>= 2 runs or a tie under the comparator). Distinct = distinct input token sequence.",
+        rule: "corpus, then (a) lengths k*c-1, k*c, k*c+1 for chunk sizes c in {0,1,2,3,7,64} and k <= 4, and chunk sizes n, n+1, 1e6, 2^33, 2^40, usize::MAX/16, usize::MAX for n in {0,1,2,5,50} (chunk sizes from 2^28 run in a child process); (b) random inputs of 0-400 records with chunk sizes n/3, n, 1000, 2..60; inputs sorted / reversed / constant key / 3 keys (many ties) / random / with a 9 KiB and a 70 KiB record; record types (key,payload) compared by key only or reversed, GenomicRange (sort with its Ord, and sort_by), BED<6> with optional fields, NarrowPeak with float fields, BedGraph<f64>; threads in {1,2,3,8,16}, compression in {none,0,1,4,9,16}, explicit or default tmp dir; in a third of the cases the sorter is used for two sorts and the observed one is the first (second sort run and drained while the first result is unread) or the second (first result drained afterwards), or the sorter is dropped before the first item of its result is read; a few pairs of sorts running at the same time on one sorter; a few sorts in a child process whose environment changes between build() and the sort (tmp dir given as a relative path and the working directory changed; TMPDIR pointing to a missing directory); thorough adds inputs of 9e3 to 3e4 records in chunks of 3e3 to 1.2e4 (above rayon's sequential cut-off of 2000). three sorts of 300-700 records in runs of 1-2 records (more than 2^8 runs); the number of runs is kept <= 700 (every run is an open file). Non-trivial: >= 2 records and (>= 2 runs or a tie under the comparator). Distinct = distinct input token sequence.",
         observable: "initial len() and the item sequence as (comparator key, full bincode serialisation) or error items; ties compared as classes",
         gen, exec, shrink, child: Some(child),
     }
